@@ -1,6 +1,7 @@
 import KanidmModel.Proto
 import KanidmModel.RangeDiff
-/-! Driver for C10: `rd <consumer> <supplier>`; a map is `k:min:max,k:min:max` or `-`. -/
+/-! Driver for C10: `rd <consumer> <supplier>` (range_diff) and `sp <same-domain 0|1> <consumer> <supplier>`
+(supplier_provide_changes decision); a map is `k:min:max,k:min:max` or `-`. -/
 open Kanidm Kanidm.Proto Kanidm.RangeDiff
 
 def parseRuv (s : String) : Option Ruv :=
@@ -16,6 +17,13 @@ def handle (line : String) : String :=
   | ["rd", c, s] =>
     match parseRuv c, parseRuv s with
     | some c, some s => showStatus (rangeDiff c s)
+    | _, _ => "bad-op"
+  | ["sp", d, c, s] =>
+    match parseRuv c, parseRuv s with
+    | some c, some s =>
+      if d = "1" then showDecision (supplierProvide true c s)
+      else if d = "0" then showDecision (supplierProvide false c s)
+      else "bad-op"
     | _, _ => "bad-op"
   | _ => "bad-op"
 
